@@ -13,7 +13,8 @@ Nothing here is a second model: `CState.abs` flattens the pieces, and
 `Proofs/ArchiveChunked` + `Props.C04.chunked_steps_are_the_model` prove that for EVERY state with
 a correct length field and EVERY operation the chunked step, flattened, is `Container.step` /
 `istep` of the flattened state with the same output (and keeps the length field correct), hence
-for every history from the initial state the outputs are those of `Container.run` / `irun`.
+for every history from the initial state the outputs the driver prints (`runTC` / `irunTC`) are
+those of `Container.run` / `irun`.
 A write at any other offset than the end (never issued by `write`, whose write position is the
 file length in every reachable state) falls back to `Archive.writeAt` on the flattened file.
 -/
@@ -181,13 +182,6 @@ def stepC (P : Archive.Params) (cfg : Lsm.Cfg) (s : CState) : Op → CState × O
   | .flushAll => ({ s with ix := (Lsm.step cfg s.ix .flushAll).1 }, .ok)
   | .reopen => ({ s with ar := Archive.reopenC s.ar, ix := Lsm.reload s.ix }, .ok)
 
-def runC (P : Archive.Params) (cfg : Lsm.Cfg) : CState → List Op → CState × List Out
-  | s, [] => (s, [])
-  | s, op :: ops =>
-    let r := stepC P cfg s op
-    let rest := runC P cfg r.1 ops
-    (rest.1, r.2 :: rest.2)
-
 /-- `IState` with the chunked data file. -/
 structure CIState where
   ar : Archive.CState
@@ -224,13 +218,6 @@ def istepC (P : Archive.Params) (cfg : Lsm.Cfg) (s : CIState) : IOp → CIState 
   | .openOnly => (⟨Archive.dropOpenC s.ar, { s.ix with mem := fun _ => none }, []⟩, .ok)
   | .init => ({ s with ar := Archive.reopenC s.ar, ix := loadAll s.ix }, .ok)
 
-def irunC (P : Archive.Params) (cfg : Lsm.Cfg) : CIState → List IOp → CIState × List IOut
-  | s, [] => (s, [])
-  | s, op :: ops =>
-    let r := istepC P cfg s op
-    let rest := irunC P cfg r.1 ops
-    (rest.1, r.2 :: rest.2)
-
 /-- `stepC`, then the index tables stored (as `stepT`). -/
 def stepTC (P : Archive.Params) (cfg : Lsm.Cfg) (s : CState) (op : Op) : CState × Out :=
   let r := stepC P cfg s op
@@ -247,5 +234,21 @@ def istepTC (P : Archive.Params) (cfg : Lsm.Cfg) (s : CIState) (op : IOp) : CISt
   | .has _ => r
   | .write _ _ => ({ r.1 with ix := tabMem r.1.ix }, r.2)
   | _ => ({ r.1 with ix := tabDisk (tabMem r.1.ix) }, r.2)
+
+/-- what the driver computes on a `dyn` case: `stepTC` along the request lines. -/
+def runTC (P : Archive.Params) (cfg : Lsm.Cfg) : CState → List Op → CState × List Out
+  | s, [] => (s, [])
+  | s, op :: ops =>
+    let r := stepTC P cfg s op
+    let rest := runTC P cfg r.1 ops
+    (rest.1, r.2 :: rest.2)
+
+/-- what the driver computes on an `inst` case: `istepTC` along the request lines. -/
+def irunTC (P : Archive.Params) (cfg : Lsm.Cfg) : CIState → List IOp → CIState × List IOut
+  | s, [] => (s, [])
+  | s, op :: ops =>
+    let r := istepTC P cfg s op
+    let rest := irunTC P cfg r.1 ops
+    (rest.1, r.2 :: rest.2)
 
 end Cascette.Model.Container
